@@ -427,7 +427,6 @@ pub fn run(ctx: &Ctx) -> Report {
         "pairs_certificate_same_fingerprint_other_content",
         "pairs_with_cluster_removed_backends_remain",
         "pairs_with_udp_difference",
-        "pairs_with_tcp_or_udp_frontends_sharing_an_address",
         "self_diffs",
     ] {
         rep.require(k);
